@@ -30,6 +30,7 @@ CONSTANTS
   MaxIssued,     \* endorsements issued per history
   Rebootstrap,   \* TRUE: bootstrap may run over a populated authority (with or without overwrite)
   Wipeouts,      \* TRUE: wipeout commands are part of histories
+  Collide,       \* TRUE: a serial override may name another key version's certificate object
   Times,         \* certificate creation times a command may carry
   Design         \* "atomic" | "legacy_order" | "legacy_template"
 
@@ -231,9 +232,11 @@ StartRotate(sov, ow, t) ==
             /\ regs' = [NoRegs EXCEPT !.cmd = "rotate"] /\ pc' = "r_refused"
             /\ Step(Ev("Cmd", "rotate", Params(ow, sov, t)))
             /\ UNCHANGED <<lastRet, dirty>>
-       ELSE \* a serial that names another key version's certificate object is outside the model:
-            \* with overwrite the operator asks for that certificate to be replaced
-            /\ sobjs[serial] = NoCert \/ sobjs[serial].name = KName(VerOf(sman.psign) + 1)
+       ELSE \* a serial that names another key version's certificate object: with overwrite the operator
+            \* asks for that certificate to be replaced -- excluded from the fault configurations
+            \* (Collide = FALSE), where replacing the current primary's certificate before the manifest
+            \* switch is the operator's own doing, and included in the command-history ones
+            /\ Collide \/ sobjs[serial] = NoCert \/ sobjs[serial].name = KName(VerOf(sman.psign) + 1)
             /\ regs' = [NoRegs EXCEPT !.cmd = "rotate", !.ow = ow, !.sov = serial, !.t = t,
                                      !.oldName = sman.psign, !.newName = KName(VerOf(sman.psign) + 1)]
             /\ pc' = "r_create"
